@@ -162,6 +162,7 @@ func (l *LevelDB) Close() error {
 
 // BeginTx ...
 func (l *LevelDB) BeginTx() (db.DBTransaction, error) {
+	simBeforeWriterLock()
 	l.muTr.Lock()
 
 	return &transaction{
